@@ -86,14 +86,14 @@ template <class T> static void run_factor(Choice &c, Ctx &cx)
     }
     // ---- workspace sweep ---------------------------------------------------------------------------------
     std::vector<long> lens; std::vector<int> mis;
-    if (exhaustive) { for (long l = 1; l <= W + 64; ++l) { lens.push_back(l); mis.push_back((l & 8) ? 4 : 0); } }
+    if (exhaustive) { for (long l = 1; l <= W + 64; ++l) { lens.push_back(l); mis.push_back(pick_misalign((l & 8) != 0, cx)); } }
     else {
         int cnt = 16 + (int)c.below(16);
         for (int i = 0; i < cnt; ++i) {
             unsigned k = c.below(6); long l;
             switch (k) { case 0: l = 1 + (long)c.below(64); break; case 1: l = W - (long)c.below(128); break; case 2: l = W + (long)c.below(64); break; case 3: l = 2 * W + (long)c.below(600); break; default: l = 1 + (long)(c.u16() % (unsigned)(W + 64)); }
             if (l < 1) l = 1;
-            lens.push_back(l); mis.push_back(c.chance(128) ? 4 : 0);
+            lens.push_back(l); mis.push_back(pick_misalign(c.chance(128), cx));
         }
     }
     std::vector<SweepRec> recs; std::vector<int> crashed, hung;
